@@ -41,6 +41,12 @@ func c13Value(r *core.Rng, next func() any) c13Val {
 		return c13Val{nil, false, "nil"}
 	case 9:
 		return c13Val{NewStack(Kinds[r.Intn(5)], 0), true, "Stack(empty)"}
+	case 10:
+		// a zero-valued alias and a nil pointer to one convert to nothing: ordinary values, not Stacks
+		if r.Bool() {
+			return c13Val{AStack{}, false, "AStack{}"}
+		}
+		return c13Val{(*AStack)(nil), false, "(*AStack)(nil)"}
 	}
 	v := next()
 	return c13Val{v, false, Show(v)}
@@ -61,8 +67,12 @@ func c13Run(c *core.Ctx, idx int) {
 		return
 	}
 	kind := Kinds[r.Intn(5)]
-	s := NewStack(kind, 0)
-	m := &ListModel{}
+	capacity := 0
+	if r.Chance(1, 4) {
+		capacity = r.Range(2, 9) // skipped Stacks must not use up room
+	}
+	s := NewStack(kind, capacity)
+	m := &ListModel{Cap: capacity}
 	bit := false
 	var log []string
 	fail := func(key, msg string) {
@@ -130,7 +140,7 @@ func c13Run(c *core.Ctx, idx int) {
 				if v.isStack && bit {
 					filtered++
 					c.Count("stack-values-offered-while-set")
-				} else {
+				} else if !m.Full() {
 					m.Items = append(m.Items, v.v)
 					stored++
 				}
@@ -235,7 +245,7 @@ func init() {
 			"interleaved with SetNoNesting(true|false|toggle)/NoNesting() on Stacks of every kind; every fifth case drives a Condition (SetExpression x option switches). After every step: content identity against the list model " +
 			"(non-Stack values of each batch kept in order, Stacks skipped while the option is set, earlier elements untouched), CanNest()==!option, IsNesting()==exists Stack element / Stack expression. " +
 			"non-trivial = history with >= 2 option switches, >= 1 filtered Stack and >= 2 stored values (Stack side) or >= 1 refused Stack expression (Condition side); distinct = hash of the literal history.",
-		Assumptions: []string{"no push policy, no capacity, no read-only flag (those interact with acceptance and are covered by C14/C03/C09)", "zero-valued Stack{} elements are not offered (the statement does not say whether they are 'a Stack')"},
+		Assumptions: []string{"no push policy, no read-only flag (those interact with acceptance and are covered by C14/C09); a quarter of the stacks has a capacity, under which skipped Stacks must not consume room", "zero-valued native Stack{} elements are not offered (the statement does not say whether they are 'a Stack'); zero-valued aliases and nil alias pointers convert to nothing and count as ordinary values"},
 		Floors: func(string) map[string]int64 {
 			return map[string]int64{"stack-values-offered-while-set": 1000, "stack-values-offered-while-clear": 1000, "option-switches": 1000, "cond.stack-expression-refused": 100}
 		},
